@@ -1,12 +1,23 @@
-import Crusta.Model.Store
+import Crusta.Proofs.StoreObs
 
-/-! # C12 — the framework store is a faithful set model (property theorems) -/
+/-!
+# C12 — the framework store is a faithful set model under any update history (property theorems)
+
+`Store` mirrors `LabelSet` / `ArgumentSet` / `AAFramework` (tombstones, stale row indexes,
+`swap_remove`).  The abstract view of a state is: the live arguments `Live i l` (id, label) and
+the live attacks `HasAtt a b` (between ids).  All theorems hold for **every** reachable state,
+i.e. after any finite sequence of `new_argument` / `remove_argument` / `new_attack` /
+`remove_attack` over any labels (self-attacks, re-insertions, repeated removals, invalid operands).
+-/
 
 namespace Crusta.C12
-open Crusta
+open Crusta Crusta.Store
 
-/-- an update rejected by the model leaves the state it returns identical to the input state
-(for `remove_argument`, `new_attack`, `remove_attack` on unknown operands) -/
+/-- every history runs without panic and ends in a state satisfying the store invariant -/
+theorem reachable_inv (ops : List StoreOp) : ∃ s, runOps Store.empty ops = some s ∧ s.Inv :=
+  inv_reachable ops
+
+/-- an update rejected by the store leaves the state it returns identical to the input state -/
 theorem err_unchanged (s s' : Store) (op : StoreOp) (h : s.step op = .err s') : s' = s := by
   cases op <;>
     simp +zetaDelta +zeta only [Store.step, Store.removeArgument, Store.newAttack, Store.removeAttack] at h
@@ -15,5 +26,147 @@ theorem err_unchanged (s s' : Store) (op : StoreOp) (h : s.step op = .err s') : 
       | (injection h with h; exact h.symm)
       | (exfalso; exact StoreRes.noConfusion h)
       | split at h)
+
+/-- `new_argument`: inserting an existing label changes nothing; a new label gets the next id
+(the number of ids ever issued), every other argument and every attack is untouched -/
+theorem new_argument_refines {s : Store} (hinv : s.Inv) (l : Nat) :
+    ((∃ i, s.Live i l) → s.newArgument l = s) ∧
+    ((∀ i, ¬ s.Live i l) →
+      (∀ i l', (s.newArgument l).Live i l' ↔ (s.Live i l' ∨ (i = s.labels.length ∧ l' = l))) ∧
+      (∀ a b, (s.newArgument l).HasAtt a b ↔ s.HasAtt a b)) := by
+  constructor
+  · rintro ⟨i, hi⟩; exact newArgument_existing hinv hi
+  · intro h
+    rw [newArgument_fresh hinv h]
+    exact ⟨fun i l' => live_pushArg, fun a b => Iff.rfl⟩
+
+/-- `remove_argument`: an unknown label is an error; otherwise exactly that argument and exactly
+its incident attacks disappear -/
+theorem remove_argument_refines {s : Store} (hinv : s.Inv) (l : Nat) :
+    ((∀ id, ¬ s.Live id l) → s.removeArgument l = .err s) ∧
+    (∀ id, s.Live id l → ∃ s', s.removeArgument l = .ok s' ∧
+      (∀ i l', s'.Live i l' ↔ (s.Live i l' ∧ i ≠ id)) ∧
+      (∀ a b, s'.HasAtt a b ↔ (s.HasAtt a b ∧ a ≠ id ∧ b ≠ id))) := by
+  refine ⟨(removeArgument_spec hinv l).2, fun id hl => ⟨_, (removeArgument_spec hinv l).1 id hl, fun i l' => live_dropArg, ?_⟩⟩
+  intro a b
+  constructor
+  · rintro ⟨i, hi⟩
+    obtain ⟨h0, h1, h2⟩ := (att_dropArg hinv hl i (a, b)).1 hi
+    exact ⟨⟨i, h0⟩, h1, h2⟩
+  · rintro ⟨⟨i, hi⟩, h1, h2⟩
+    exact ⟨i, (att_dropArg hinv hl i (a, b)).2 ⟨hi, h1, h2⟩⟩
+
+/-- `new_attack`: unknown endpoint is an error; an existing attack changes nothing; otherwise
+exactly that attack is added -/
+theorem new_attack_refines {s : Store} (hinv : s.Inv) (la lb : Nat) :
+    (((∀ a, ¬ s.Live a la) ∨ (∀ b, ¬ s.Live b lb)) → s.newAttack la lb = .err s) ∧
+    (∀ a b, s.Live a la → s.Live b lb → ∃ s', s.newAttack la lb = .ok s' ∧
+      (∀ i l', s'.Live i l' ↔ s.Live i l') ∧
+      (∀ c d, s'.HasAtt c d ↔ (s.HasAtt c d ∨ (c = a ∧ d = b))) ∧
+      (s.HasAtt a b → s' = s)) := by
+  refine ⟨(newAttack_spec hinv la lb).2, ?_⟩
+  intro a b ha hb
+  by_cases hh : s.HasAtt a b
+  · refine ⟨s, ((newAttack_spec hinv la lb).1 a b ha hb).1 hh, fun _ _ => Iff.rfl, ?_, fun _ => rfl⟩
+    intro c d
+    constructor
+    · intro h; exact Or.inl h
+    · rintro (h | ⟨rfl, rfl⟩)
+      · exact h
+      · exact hh
+  · exact ⟨_, ((newAttack_spec hinv la lb).1 a b ha hb).2 hh, fun _ _ => Iff.rfl, hasAtt_pushAtt a b,
+      fun h => absurd h hh⟩
+
+/-- `remove_attack`: unknown endpoint or absent attack is an error; otherwise exactly that attack
+disappears -/
+theorem remove_attack_refines {s : Store} (hinv : s.Inv) (la lb : Nat) :
+    (((∀ a, ¬ s.Live a la) ∨ (∀ b, ¬ s.Live b lb)) → s.removeAttack la lb = .err s) ∧
+    (∀ a b, s.Live a la → s.Live b lb →
+      (¬ s.HasAtt a b → s.removeAttack la lb = .err s) ∧
+      (s.HasAtt a b → ∃ s', s.removeAttack la lb = .ok s' ∧
+        (∀ i l', s'.Live i l' ↔ s.Live i l') ∧
+        (∀ c d, s'.HasAtt c d ↔ (s.HasAtt c d ∧ ¬ (c = a ∧ d = b))))) := by
+  refine ⟨(removeAttack_spec hinv la lb).2, ?_⟩
+  intro a b ha hb
+  refine ⟨((removeAttack_spec hinv la lb).1 a b ha hb).2, ?_⟩
+  rintro ⟨k, hk⟩
+  obtain ⟨pf, pt, he, _⟩ := ((removeAttack_spec hinv la lb).1 a b ha hb).1 k hk
+  exact ⟨_, he, fun _ _ => Iff.rfl, hasAtt_dropAtt hinv hk⟩
+
+/-- counts and iterators agree with the abstract view: `n_attacks` counts the live attacks,
+`iter_attacks` lists exactly them, `iter_attacks_from/to` exactly those from / to the argument -/
+theorem observers_agree {s : Store} (hinv : s.Inv) :
+    s.nAttacks = s.iterAttacks.length ∧
+    (∀ a b, (a, b) ∈ s.iterAttacks ↔ s.HasAtt a b) ∧
+    (∀ a p, p ∈ s.iterFrom a ↔ (p.1 = a ∧ s.HasAtt p.1 p.2)) ∧
+    (∀ b p, p ∈ s.iterTo b ↔ (p.2 = b ∧ s.HasAtt p.1 p.2)) ∧
+    (∀ i j a b, s.att i = some (a, b) → s.att j = some (a, b) → i = j) :=
+  ⟨nAttacks_eq hinv, mem_iterAttacks, mem_iterFrom hinv, mem_iterTo hinv, hinv.att_nodup⟩
+
+/-- ids are unique and labels are unique among live arguments; lookup by label finds exactly the
+live argument with that label; attacks only relate live arguments -/
+theorem ids_and_labels {s : Store} (hinv : s.Inv) :
+    (∀ i j l, s.Live i l → s.Live j l → i = j) ∧
+    (∀ l i, s.getArg l = some i ↔ s.Live i l) ∧
+    (∀ a b, s.HasAtt a b → s.hasId a = true ∧ s.hasId b = true) :=
+  ⟨hinv.label_inj, fun _ _ => getArg_eq_some hinv, fun a b ⟨i, hi⟩ => hinv.ends_live i a b hi⟩
+
+/-- ids are stable and never reused: across any operation a live argument keeps its id and label
+unless it is the one removed, and a new argument gets an id no argument ever had -/
+theorem ids_stable {s s' : Store} (hinv : s.Inv) (op : StoreOp) (h : s.step op = .ok s') :
+    s.labels.length ≤ s'.labels.length ∧
+    (∀ i l, s'.Live i l → i < s.labels.length → s.Live i l) := by
+  cases op with
+  | newArg l =>
+    simp only [Store.step] at h; injection h with h; subst h
+    by_cases hl : ∃ i, s.Live i l
+    · obtain ⟨i, hi⟩ := hl
+      rw [newArgument_existing hinv hi]; exact ⟨Nat.le_refl _, fun _ _ h _ => h⟩
+    · have hl' : ∀ i, ¬ s.Live i l := fun i hi => hl ⟨i, hi⟩
+      rw [newArgument_fresh hinv hl']
+      refine ⟨by simp [pushArg], ?_⟩
+      intro i l' hli hlt
+      rcases live_pushArg.1 hli with h | ⟨h, _⟩
+      · exact h
+      · omega
+  | remArg l =>
+    simp only [Store.step] at h
+    by_cases hl : ∃ id, s.Live id l
+    · obtain ⟨id, hid⟩ := hl
+      rw [(removeArgument_spec hinv l).1 id hid] at h
+      injection h with h; subst h
+      exact ⟨by simp [dropArg], fun i l' hli _ => (live_dropArg.1 hli).1⟩
+    · rw [(removeArgument_spec hinv l).2 (fun id hid => hl ⟨id, hid⟩)] at h; cases h
+  | newAtt la lb =>
+    simp only [Store.step] at h
+    by_cases ha : ∃ a, s.Live a la
+    · by_cases hb : ∃ b, s.Live b lb
+      · obtain ⟨a, ha⟩ := ha
+        obtain ⟨b, hb⟩ := hb
+        by_cases hh : s.HasAtt a b
+        · rw [((newAttack_spec hinv la lb).1 a b ha hb).1 hh] at h
+          injection h with h; subst h; exact ⟨Nat.le_refl _, fun _ _ h _ => h⟩
+        · rw [((newAttack_spec hinv la lb).1 a b ha hb).2 hh] at h
+          injection h with h; subst h; exact ⟨Nat.le_refl _, fun _ _ h _ => h⟩
+      · rw [(newAttack_spec hinv la lb).2 (Or.inr (fun b hb' => hb ⟨b, hb'⟩))] at h; cases h
+    · rw [(newAttack_spec hinv la lb).2 (Or.inl (fun a ha' => ha ⟨a, ha'⟩))] at h; cases h
+  | remAtt la lb =>
+    simp only [Store.step] at h
+    by_cases ha : ∃ a, s.Live a la
+    · by_cases hb : ∃ b, s.Live b lb
+      · obtain ⟨a, ha⟩ := ha
+        obtain ⟨b, hb⟩ := hb
+        by_cases hh : s.HasAtt a b
+        · obtain ⟨k, hk⟩ := hh
+          obtain ⟨pf, pt, he, _⟩ := ((removeAttack_spec hinv la lb).1 a b ha hb).1 k hk
+          rw [he] at h; injection h with h; subst h
+          exact ⟨Nat.le_refl _, fun _ _ h _ => h⟩
+        · rw [((removeAttack_spec hinv la lb).1 a b ha hb).2 hh] at h; cases h
+      · rw [(removeAttack_spec hinv la lb).2 (Or.inr (fun b hb' => hb ⟨b, hb'⟩))] at h; cases h
+    · rw [(removeAttack_spec hinv la lb).2 (Or.inl (fun a ha' => ha ⟨a, ha'⟩))] at h; cases h
+
+/-- non-vacuity: a concrete history with a self-attack, a removal and a re-insertion runs -/
+example : ∃ s, runOps Store.empty [.newArg 1, .newArg 2, .newAtt 1 1, .newAtt 1 2, .remArg 1, .newArg 1] = some s ∧
+    s.nArguments = 2 := ⟨_, rfl, rfl⟩
 
 end Crusta.C12
